@@ -1,6 +1,6 @@
 (* C03 - proofs.  The frame (unwinding) theorem over all interleavings and its instances. *)
 From Coq Require Import Lia.
-From HT Require Import C03.Model.
+From HT Require Import C03.Model C03.CheckLim.
 Open Scope N_scope.
 
 (* ---------- basic facts ---------- *)
@@ -101,13 +101,13 @@ Qed.
 (* ---------- services whose handler keeps its state in locals ---------- *)
 Section LocalFrame.
   Variable C : Type.
-  Variable lstep : C -> input -> C * list reply * list ev.
+  Variable lstep : N -> C -> input -> C * list reply * list ev.
 
   Lemma lift_others i (a : sys unit C) j x : j <> i ->
     eqv unit C unit i (fun _ => tt) (fst (lift lstep a j x)) a /\
     on_conn i (fst (snd (lift lstep a j x))) = [] /\ on_conn i (snd (snd (lift lstep a j x))) = [].
   Proof.
-    intros H. unfold lift. destruct (lstep (conns a j) x) as [[c rs] es]. cbn [fst snd].
+    intros H. unfold lift. destruct (lstep j (conns a j) x) as [[c rs] es]. cbn [fst snd].
     split; [split; [cbn [conns]; apply upd_other; congruence|reflexivity]|].
     split; apply on_conn_pair_ne; exact H.
   Qed.
@@ -117,7 +117,7 @@ Section LocalFrame.
     on_conn i (fst (snd (lift lstep a i x))) = on_conn i (fst (snd (lift lstep b i x))) /\
     on_conn i (snd (snd (lift lstep a i x))) = on_conn i (snd (snd (lift lstep b i x))).
   Proof.
-    intros [H _]. unfold lift. rewrite H. destruct (lstep (conns b i) x) as [[c rs] es]. cbn [fst snd].
+    intros [H _]. unfold lift. rewrite H. destruct (lstep i (conns b i) x) as [[c rs] es]. cbn [fst snd].
     split; [split; [cbn [conns]; now rewrite !upd_same|reflexivity]|]. split; reflexivity.
   Qed.
 
@@ -142,20 +142,20 @@ Section LocalFrame.
     - destruct k; discriminate.
     - rewrite run_cons in Ho. destruct k as [|k].
       + cbn in Hk, Ho. inversion Hk; subst. inversion Ho; subst. clear.
-        unfold lift. destruct (lstep (conns st j) x) as [[c rs] es]. cbn [fst snd].
+        unfold lift. destruct (lstep j (conns st j) x) as [[c rs] es]. cbn [fst snd].
         split; apply Forall_forall; intros p Hp; apply in_map_iff in Hp;
           destruct Hp as (y & <- & _); reflexivity.
       + cbn in Hk, Ho. eapply IH; eassumption.
   Qed.
   (* login state, working directory, dialogue state ...: after ANY interleaving the state of
      connection i is the fold of its own inputs *)
-  Definition lnext (c : C) (x : input) : C := fst (fst (lstep c x)).
+  Definition lnext (i : N) (c : C) (x : input) : C := fst (fst (lstep i c x)).
   Theorem local_state_own : forall tr st i,
-    conns (fst (run (lift lstep) st tr)) i = fold_left lnext (map snd (own i tr)) (conns st i).
+    conns (fst (run (lift lstep) st tr)) i = fold_left (lnext i) (map snd (own i tr)) (conns st i).
   Proof.
     induction tr as [|[j x] r IH]; intros st i; [reflexivity|].
     rewrite run_cons_state, IH. cbn [own filter fst].
-    unfold lift. destruct (lstep (conns st j) x) as [[c rs] es] eqn:E. cbn [fst conns].
+    unfold lift. destruct (lstep j (conns st j) x) as [[c rs] es] eqn:E. cbn [fst conns].
     destruct (N.eqb_spec j i) as [->|Hne].
     - cbn [map snd fold_left]. fold (own i r). rewrite upd_same. unfold lnext. now rewrite E.
     - fold (own i r). rewrite upd_other by congruence. reflexivity.
@@ -191,10 +191,10 @@ Definition tftp_view (i : N) (s : tftp_shared) : N * option (N * N) :=
   (used_of s (ip_of i), lookup i (t_bufs s)).
 
 Lemma used_of_store_same s ip n b : used_of (mkTftp (store ip n (t_used s)) b) ip = n.
-Proof. unfold used_of. cbn [t_used]. now rewrite lookup_store_same. Qed.
+Proof. unfold used_of, lim_used. cbn [t_used]. now rewrite lookup_store_same. Qed.
 
 Lemma used_of_store_ne s ip ip' n b : ip <> ip' -> used_of (mkTftp (store ip' n (t_used s)) b) ip = used_of s ip.
-Proof. intros H. unfold used_of. cbn [t_used]. now rewrite lookup_store_ne. Qed.
+Proof. intros H. unfold used_of, lim_used. cbn [t_used]. now rewrite lookup_store_ne. Qed.
 
 Lemma tftp_others i (a : sys tftp_shared unit) j x : j <> i -> ip_of j <> ip_of i ->
   eqv tftp_shared unit _ i (tftp_view i) (fst (tftp_step a j x)) a /\
@@ -256,7 +256,7 @@ Proof.
 Qed.
 
 (* ---------- sequential histories ---------- *)
-Theorem local_history_irrelevant : forall C (lstep : C -> input -> C * list reply * list ev) c0 i h p,
+Theorem local_history_irrelevant : forall C (lstep : N -> C -> input -> C * list reply * list ev) c0 i h p,
   Forall (fun q : N * input => fst q <> i) h -> Forall (fun q : N * input => fst q = i) p ->
   obs i (run_outs (lift lstep) tt c0 (h ++ p)) = obs i (run_outs (lift lstep) tt c0 p).
 Proof.
@@ -330,3 +330,128 @@ Definition ftp_w2 : list (N * input) :=
 Definition smtp_w1 : list (N * input) :=
   [(17, Open); (17, Tok 1 0 17); (34, Open); (34, Tok 1 0 34); (34, Tok 2 0 34);
    (34, Tok 4 0 34); (34, Tok 5 7 17)].
+
+(* ---------- the rate limiter: a key's allowance is independent of all other keys ---------- *)
+Definition answers_for (k : N) (l : limiter) (ks : list N) : list bool :=
+  map snd (filter (fun p : N * bool => fst p =? k) (combine ks (lim_run l ks))).
+
+Lemma lim_allow_other l h k : h <> k -> lim_used (snd (lim_allow l h)) k = lim_used l k.
+Proof.
+  intros H. unfold lim_allow. destruct (BURST <=? lim_used l h); [reflexivity|].
+  cbn [snd]. unfold lim_used at 1. rewrite lookup_store_ne by congruence. reflexivity.
+Qed.
+
+Lemma lim_allow_same l l' k : lim_used l k = lim_used l' k ->
+  fst (lim_allow l k) = fst (lim_allow l' k) /\
+  lim_used (snd (lim_allow l k)) k = lim_used (snd (lim_allow l' k)) k.
+Proof.
+  intros H. unfold lim_allow. rewrite H. destruct (BURST <=? lim_used l' k); cbn [fst snd].
+  - split; [reflexivity|exact H].
+  - split; [reflexivity|]. unfold lim_used at 1 3. now rewrite !lookup_store_same.
+Qed.
+
+Theorem limiter_independent : forall ks l l' k,
+  lim_used l k = lim_used l' k ->
+  answers_for k l ks = lim_run l' (filter (fun h => h =? k) ks).
+Proof.
+  induction ks as [|h r IH]; intros l l' k H; [reflexivity|].
+  unfold answers_for in *. cbn [lim_run filter].
+  destruct (lim_allow l h) as [b l1] eqn:E. cbn [combine filter fst].
+  destruct (N.eqb_spec h k) as [->|Hne].
+  - cbn [map snd lim_run]. destruct (lim_allow l' k) as [b' l1'] eqn:E'.
+    destruct (lim_allow_same l l' k H) as [Hb Hu]. rewrite E, E' in Hb, Hu. cbn [fst snd] in Hb, Hu.
+    subst b'. f_equal. apply IH. exact Hu.
+  - apply IH. pose proof (lim_allow_other l h k Hne) as Ho. rewrite E in Ho. cbn [snd] in Ho. congruence.
+Qed.
+
+(* ... and is exactly: the first BURST calls of the key are admitted *)
+Theorem limiter_burst : forall n l k,
+  lim_run l (repeat k n) = map (fun j => lim_used l k + N.of_nat j <? BURST) (seq 0 n).
+Proof.
+  induction n as [|n IH]; intros l k; [reflexivity|].
+  cbn [repeat lim_run seq map]. unfold lim_allow at 1.
+  destruct (BURST <=? lim_used l k) eqn:E.
+  - rewrite IH. f_equal.
+    + cbn. rewrite N.add_0_r. apply N.leb_le in E. symmetry. apply N.ltb_ge. exact E.
+    + rewrite <- seq_shift, map_map. apply map_ext_in. intros j _.
+      apply N.leb_le in E. transitivity false; [apply N.ltb_ge; lia|symmetry; apply N.ltb_ge; lia].
+  - rewrite IH. f_equal.
+    + cbn. rewrite N.add_0_r. apply N.leb_gt in E. symmetry. apply N.ltb_lt. exact E.
+    + rewrite <- seq_shift, map_map. apply map_ext_in. intros j _.
+      unfold lim_used at 1. rewrite lookup_store_same. f_equal. lia.
+Qed.
+
+(* ---------- memcached over UDP: isolated from every client with another IP ---------- *)
+Lemma mcudp_others i (a : sys limiter unit) j x : j <> i -> ip_of j <> ip_of i ->
+  eqv limiter unit _ i (fun l => lim_used l (ip_of i)) (fst (mcudp_step a j x)) a /\
+  on_conn i (fst (snd (mcudp_step a j x))) = [] /\ on_conn i (snd (snd (mcudp_step a j x))) = [].
+Proof.
+  intros Hne Hip.
+  assert (Hc : forall (f g : N -> unit), f i = g i) by (intros f g; destruct (f i), (g i); reflexivity).
+  assert (Hn1 : forall A (y : A), on_conn i [(j, y)] = []).
+  { intros A y. unfold on_conn. cbn [filter fst]. destruct (N.eqb_spec j i); [contradiction|reflexivity]. }
+  unfold mcudp_step. destruct x as [|t arg pick|]; try (split; [split; reflexivity|split; reflexivity]).
+  pose proof (lim_allow_other (shared a) (ip_of j) (ip_of i) Hip) as Ho.
+  destruct (lim_allow (shared a) (ip_of j)) as [ok l']. cbn [fst snd shared conns] in *.
+  split; [split; [apply Hc|exact Ho]|]. split; [destruct ok; [apply Hn1|reflexivity]|apply Hn1].
+Qed.
+
+Lemma mcudp_own i (a b : sys limiter unit) x :
+  eqv limiter unit _ i (fun l => lim_used l (ip_of i)) a b ->
+  eqv limiter unit _ i (fun l => lim_used l (ip_of i)) (fst (mcudp_step a i x)) (fst (mcudp_step b i x)) /\
+  on_conn i (fst (snd (mcudp_step a i x))) = on_conn i (fst (snd (mcudp_step b i x))) /\
+  on_conn i (snd (snd (mcudp_step a i x))) = on_conn i (snd (snd (mcudp_step b i x))).
+Proof.
+  intros [_ Hv].
+  assert (Hc : forall (f g : N -> unit), f i = g i) by (intros f g; destruct (f i), (g i); reflexivity).
+  unfold mcudp_step. destruct x as [|t arg pick|]; try (split; [split; [apply Hc|exact Hv]|split; reflexivity]).
+  destruct (lim_allow_same (shared a) (shared b) (ip_of i) Hv) as [Hb Hu].
+  destruct (lim_allow (shared a) (ip_of i)) as [ok l1]. destruct (lim_allow (shared b) (ip_of i)) as [ok' l2].
+  cbn [fst snd shared conns] in *. subst ok'.
+  split; [split; [apply Hc|exact Hu]|split; reflexivity].
+Qed.
+
+Theorem mcudp_frame : forall i tr,
+  Forall (fun p : N * input => fst p = i \/ ip_of (fst p) <> ip_of i) tr ->
+  obs i (run_outs mcudp_step [] tt tr) = obs i (run_outs mcudp_step [] tt (own i tr)).
+Proof.
+  intros i tr H. unfold run_outs.
+  apply (frame limiter unit _ mcudp_step i (fun l => lim_used l (ip_of i)) (fun j _ => ip_of j <> ip_of i)).
+  - intros a j x Hne Hip. apply mcudp_others; assumption.
+  - intros a b x Hab. apply mcudp_own; exact Hab.
+  - split; reflexivity.
+  - exact H.
+Qed.
+
+(* ---------- the closed form the "lim" checker judges with is the bucket model ---------- *)
+Definition count_key (k : N) (seen : list N) : N := N.of_nat (length (filter (N.eqb k) seen)).
+
+Lemma count_key_cons k k0 seen :
+  count_key k (k0 :: seen) = (if k =? k0 then 1 else 0) + count_key k seen.
+Proof.
+  unfold count_key. cbn [filter]. destruct (k =? k0); cbn [length]; lia.
+Qed.
+
+Theorem lim_expected_is_model : forall calls l seen,
+  (forall k, lim_used l k = N.min (count_key k seen) BURST) ->
+  model_run l calls = expected seen calls.
+Proof.
+  induction calls as [|a r IH]; intros l seen Hinv; [reflexivity|].
+  cbn [model_run expected]. destruct (a_kind a =? 3); [f_equal; apply IH; exact Hinv|].
+  set (k0 := key_of (a_ip a)). unfold lim_allow. fold (count_key k0 seen).
+  pose proof (Hinv k0) as H0. unfold BURST in *.
+  destruct (4 <=? lim_used l k0) eqn:E.
+  - apply N.leb_le in E. f_equal.
+    + symmetry. apply N.ltb_ge. lia.
+    + apply IH. intros k. rewrite count_key_cons, Hinv.
+      destruct (N.eqb_spec k k0) as [->|Hne]; [lia|lia].
+  - apply N.leb_gt in E. f_equal.
+    + symmetry. apply N.ltb_lt. lia.
+    + apply IH. intros k. rewrite count_key_cons. unfold lim_used.
+      destruct (N.eqb_spec k k0) as [->|Hne].
+      * rewrite lookup_store_same. fold (lim_used l k0). lia.
+      * rewrite lookup_store_ne by exact Hne. fold (lim_used l k). rewrite Hinv. lia.
+Qed.
+
+Theorem lim_checker_closed_form : forall calls, model_run [] calls = expected [] calls.
+Proof. intros calls. apply lim_expected_is_model. intros k. reflexivity. Qed.
